@@ -25,6 +25,8 @@ PrefixTable ==
       dotdot   |-> [text |-> "../",               class |-> "path",   sep |-> "/"],
       dot      |-> [text |-> ".",                 class |-> "path",   sep |-> "/"],
       bslash   |-> [text |-> "\\",                class |-> "path",   sep |-> "\\"],
+      dslash   |-> [text |-> "//",                class |-> "path",   sep |-> "/"],      \* a path with a doubled leading slash (net/url reads an authority: the SOURCE still starts with "/")
+      unc      |-> [text |-> "\\\\",              class |-> "path",   sep |-> "\\"],
       drive    |-> [text |-> "C:\\",              class |-> "scheme", sep |-> "\\"],
       https    |-> [text |-> "https://example.com/", class |-> "scheme", sep |-> "/"],
       ssh      |-> [text |-> "ssh://git@example.com/", class |-> "scheme", sep |-> "/"],
